@@ -147,6 +147,10 @@ package expressions
 //@   loop 1 invariant imp(qStart == '\'' && qEnd == '\'' && exec, len(value) == tree.charPos - old(tree.charPos) - 1)
 //@   loop 1 invariant imp(qStart == '\'' && qEnd == '\'' && exec, forall(k, 0, len(value), value[k] == old(tree.expression[tree.charPos + 1 + k]) && value[k] != '\''))
 //@   loop 1 invariant imp(qStart == '\'' && qEnd == '\'' && exec, forall(k, 0, len(tree.expression), tree.expression[k] == old(tree.expression[k])))
+// Double quotes in the syntax-only pass: an iteration that starts on a backslash consumes the escaped
+// character with it, so an escaped quote (\") never terminates the literal - the same closing quote is
+// found as by the evaluating scanner parseStringInfix.
+//@   loop 1 step imp(qStart == '"' && old(tree.expression[tree.charPos]) == '\\' && old(tree.charPos) + 1 < len(old(tree.expression)), tree.charPos == old(tree.charPos) + 2)
 //@   ensures imp(qStart == '\'' && qEnd == '\'' && exec && result1 == nil, old(tree.charPos) <= tree.charPos && tree.charPos + 1 < len(tree.expression) && tree.expression[tree.charPos + 1] == '\'' && tree.expression == old(tree.expression))
 //@   ensures imp(qStart == '\'' && qEnd == '\'' && exec && result1 == nil, len(result) == tree.charPos - old(tree.charPos))
 //@   ensures imp(qStart == '\'' && qEnd == '\'' && exec && result1 == nil, forall(k, 0, len(result), result[k] == old(tree.expression[tree.charPos + 1 + k]) && result[k] != '\''))
